@@ -28,6 +28,8 @@ pub struct World {
     pub stats: BTreeMap<String, u64>,
     pub cases: BTreeMap<String, BTreeSet<u64>>,
     pub used_scalars: BTreeMap<Vec<u8>, usize>,
+    /// in how many library calls of this world each candidate value was offered by the scripts
+    pub offered_in_calls: BTreeMap<Vec<u8>, u32>,
     pub invalid: Option<String>,
     pub keep_trace: bool,
     pub trace: Vec<String>,
@@ -79,6 +81,7 @@ impl World {
             stats: BTreeMap::new(),
             cases: BTreeMap::new(),
             used_scalars: BTreeMap::new(),
+            offered_in_calls: BTreeMap::new(),
             invalid: None,
             keep_trace: false,
             trace: vec![],
@@ -168,8 +171,21 @@ impl World {
     }
 
     /// Record that a secret scalar was used (C14 freshness across the whole run).
+    /// Register the candidates one library call was offered (once per distinct value).
+    pub fn offered(&mut self, cands: &[[u8; 32]]) {
+        let uniq: BTreeSet<&[u8; 32]> = cands.iter().collect();
+        for c in uniq {
+            *self.offered_in_calls.entry(c.to_vec()).or_insert(0) += 1;
+        }
+    }
+
     pub fn scalar_used(&mut self, what: &str, scalar: &[u8], case: u64) {
         let step = self.history.len();
+        // a value the SCRIPTS offered in two different calls may legitimately be used twice
+        if self.offered_in_calls.get(scalar).copied().unwrap_or(0) > 1 {
+            self.bump("probe.c14.same-candidate-scripted-twice");
+            return;
+        }
         let prev = self.used_scalars.get(scalar).copied();
         let key = json!({"entry": what, "class": "scalar-reuse", "outcome": "Ok"});
         self.check("C14", "fresh-across-run", prev.is_none(), case, key, || {
@@ -201,6 +217,7 @@ impl World {
                 self.slots.clear();
                 self.objs = crate::objs::Objs::default();
                 self.used_scalars.clear();
+                self.offered_in_calls.clear();
                 self.observed.clear();
                 Ok(json!({}))
             }
